@@ -85,14 +85,23 @@ def gen_lstsq(rng, m=None, n=None):
         d = sorted([2.0 ** rng.randint(-6, 4) for _ in range(k)], reverse=True)
         A = [[(d[i] if i == j else 0.0) for j in range(n)] for i in range(m)]
         exact_s = [float(v).hex() for v in d]
+        if rng.random() < 0.5:                        # permuted / sign-flipped diagonal: same singular values (judged only if numpy returns them exactly)
+            rows = list(range(m))
+            rng.shuffle(rows)
+            A = [[A[r][j] * sg for j in range(n)] for r, sg in ((r, rng.choice([1.0, -1.0])) for r in rows)]
     b = [rng.gauss(0, 1) * rng.choice([1, 1, 1e3, 1e-3]) for _ in range(m)]
     if rng.random() < 0.15:       # a block of right-hand sides (m, p), the numpy.linalg.lstsq convention
         p = rng.choice([1, 2, 3, k])
         b = [[rng.gauss(0, 1) for _ in range(p)] for _ in range(m)]
     rcond = rng.choice(RCONDS)
-    if kind == "tie" and rng.random() < 0.7:
+    if kind == "tie" and rng.random() < 0.8:
         j = rng.randrange(k)
-        rcond = A[j][j] / A[0][0]                     # rcond * s[0] == s[j] exactly
+        rcond = d[j] / d[0]                     # rcond * s[0] == s[j] exactly (j = 0: rcond == 1.0)
+        u = rng.random()
+        if u < 0.2:
+            rcond = math.nextafter(rcond, 0.0)        # one ulp below the ratio: s[j] is kept
+        elif u < 0.4:
+            rcond = math.nextafter(rcond, 2.0)        # one ulp above: s[j] is dropped
     ctor_rcond = rng.choice(["default", "default", None, 1e-6, 0.2])
     cutoff = rng.choice([None, None, None] + list(range(1, k + 1)) + [k + 2])
     ctor_cutoff = rng.choice([None, None, None] + list(range(1, k + 1)))
